@@ -3,6 +3,7 @@ package main
 // Translation of contract expressions to SMT terms.
 
 import (
+	"golang.org/x/tools/go/ssa"
 	"fmt"
 	"go/token"
 	"go/types"
@@ -20,6 +21,7 @@ type Env struct {
 	inOld   bool
 	depth   int
 	lookup  func(name string) (Val, bool) // extra resolver (locals)
+	at      *ssa.BasicBlock               // block the expression is evaluated at (loop header for invariants)
 	noAbs   bool                          // do not rewrite ranged quantifiers to absolute-index form
 }
 
@@ -428,6 +430,18 @@ func (e *Env) index(xv, iv Val) Val {
 	case *types.Array:
 		return Val{T: fmt.Sprintf("(select %s %s)", xv.T, e.asIdx(iv)), S: g.sortOf(u.Elem()), GT: u.Elem()}
 	case *types.Map:
+		if strings.HasPrefix(xv.S, "(Array ") {
+			// ghost function (ghost variable of map type): total, by value
+			k := e.coerceTo(iv, u.Key())
+			r := Val{T: fmt.Sprintf("(select %s %s)", xv.T, k.T), S: g.sortOf(u.Elem()), GT: u.Elem()}
+			if !strings.Contains(r.T, "q!") {
+				if f := g.rangeFact(r.T, u.Elem()); f != "true" && !g.declared["tf:"+r.T] {
+					g.declared["tf:"+r.T] = true
+					g.assume(f)
+				}
+			}
+			return r
+		}
 		// value lookup (zero value when absent is NOT modelled here: use has(m,k))
 		_, _, vfam, vsort := g.mapFams2(u)
 		k := e.coerceTo(iv, u.Key())
@@ -885,16 +899,22 @@ func (e *Env) call(n *ECall) Val {
 		}
 		a, b, _ := e.unify(e.tr(n.Args[0]), e.tr(n.Args[1]))
 		return Val{T: fmt.Sprintf("(mod %s %s)", a.T, b.T), S: "Int", GT: a.GT}
+	case "iterations":
+		// iterations(): how many keys the range-over-map loop (the function's only one, or the one this invariant belongs to) has produced
+		rs := g.rangeFor(e.at)
+		if rs == nil {
+			e.fail("iterations(): no unique range-over-map loop here")
+		}
+		return Val{T: fmt.Sprintf("(select %s 0)", g.heapGet(e.state(), rs.cnt, "(Array Int Int)")), S: "Int", GT: types.Typ[types.Int]}
 	case "visited":
-		// visited(k): key k has already been produced by the function's (single) range-over-map loop
-		if len(g.ranges) != 1 {
-			e.fail("visited(k) needs exactly one range-over-map loop in the function (found %d)", len(g.ranges))
+		// visited(k): key k has already been produced by the range-over-map loop (see iterations)
+		rs := g.rangeFor(e.at)
+		if rs == nil {
+			e.fail("visited(k): no unique range-over-map loop here")
 		}
-		for _, rs := range g.ranges {
-			kv := e.coerceTo(e.tr(n.Args[0]), rs.mt.Key())
-			h := g.heapGet(e.state(), rs.visited, g.famSort[rs.visited])
-			return Val{T: fmt.Sprintf("(select (select %s 0) %s)", h, kv.T), S: "Bool", GT: types.Typ[types.Bool]}
-		}
+		kv := e.coerceTo(e.tr(n.Args[0]), rs.mt.Key())
+		h := g.heapGet(e.state(), rs.visited, g.famSort[rs.visited])
+		return Val{T: fmt.Sprintf("(select (select %s 0) %s)", h, kv.T), S: "Bool", GT: types.Typ[types.Bool]}
 	case "cur":
 		// cur(x): the current value of the local variable x (a loop variable that shadows a parameter of the same name)
 		id, ok := n.Args[0].(*EIdent)
